@@ -533,6 +533,7 @@ def run_mcase(case):
                 r = set_(e, v, doc, cascade=cascade)
                 return ON("value", [lval(cx, r)])
             ob = attempt("set", th)
+            ob[2].append(ON("fresh", [OZ(1)]))   # the model reports freshb (hypothesis of set_match_cset) here
         elif k == 'getstore':
             _, p, d = op
             if d[0] != 'notset':
@@ -551,6 +552,7 @@ def run_mcase(case):
                     r = get(e, doc, default=dcall, store_default=True)
                 return ON("got", [lval(cx, r)])
             ob = attempt("getstore", th)
+            ob[2].append(ON("fresh", [OZ(1)]))
         elif k == 'pop':
             _, p, d = op
             if d is not None:
